@@ -374,6 +374,14 @@ func (ka *kindAnalysis) facts(info *types.Info, cond ast.Expr, truth bool) []kin
 						return []kindFact{{path: s.X, kind: k}}
 					}
 				}
+				// E != nil for any pointer-typed access path
+				if isNilIdent(info, pair[1]) && !positive {
+					if t := info.TypeOf(pair[0]); t != nil {
+						if _, isPtr := t.Underlying().(*types.Pointer); isPtr {
+							return []kindFact{{path: pair[0], kind: "nonnil"}}
+						}
+					}
+				}
 			}
 		}
 	case *ast.CallExpr:
@@ -1044,4 +1052,122 @@ func c04EnumMemberScalar(ctx *Ctx, r *Report) {
 	})
 	r.Count("enum members built by cog", n)
 	r.Floor("enum members built by cog", 5)
+}
+
+// ---------------------------------------------------------------------------
+// nil-guarded pointer members of the IR (Option.Default, PathItem.Index / TypeHint, AssignmentValue.Argument /
+// Envelope, PathIndex.Argument, factory arguments): a selection through one of them is dominated by a non-nil test.
+
+var c04NilTable = map[string]string{
+	"internal/ast.WithTypeConstraints assignment.Value.Argument":                           "the option is only handed to ArgumentAssignment (FieldAssignment), which sets Value.Argument before applying its options",
+	"internal/veneers/option.RenameArgumentsAction newOpt.Assignments[j].Value.Argument":   "under `assignment.Value.Argument != nil` where assignment is the range copy of newOpt.Assignments[j]: the same pointer",
+	"internal/languages.ConverterGenerator.argumentsForEnvelope assignment.Value.Envelope": "its only caller runs under `assignment.Value.Envelope != nil`",
+	"internal/jennies/typescript.Builder.formatFieldPath chunk.Index.Argument":             "PathIndex carries a constant or an argument: the else-branch of `Index.Constant != nil`; indexes are built by MapToIndexAction (argument) or parsed from a configured path (constant)",
+	"internal/jennies/php.formatFieldPath chunk.Index.Argument":                            "PathIndex carries a constant or an argument (as for typescript)",
+	"internal/jennies/java.typeFormatter.formatPathIndex pathIndex.Argument":               "PathIndex carries a constant or an argument (as for typescript)",
+	"internal/jennies/python.formatFieldPath chunk.Index.Argument":                         "PathIndex carries a constant or an argument (as for typescript)",
+	"internal/jennies/golang.makePathFormatter fieldPath[i].Index.Argument":                "PathIndex carries a constant or an argument (as for typescript)",
+}
+
+func c04NilGuardedMembers(ctx *Ctx, r *Report, eng *effectsEngine) {
+	ka := newKindAnalysis(ctx)
+	ka.buildSummaries()
+	ka.buildResultKinds()
+	total := 0
+	perFunc := map[string]int{}
+	ctx.AllFuncDecls(func(p *packages.Package, fd *ast.FuncDecl, obj *types.Func) {
+		if fd.Body == nil || strings.Contains(p.PkgPath, "/cmd/") {
+			return
+		}
+		info := p.TypesInfo
+		parents := parentMap(fd)
+		ka.indexBoolDefs(info, fd)
+		isIRPointerField := func(e ast.Expr) bool {
+			sel, ok := ast.Unparen(e).(*ast.SelectorExpr)
+			if !ok {
+				return false
+			}
+			f := fieldOf(info, sel)
+			if f == nil || f.Pkg() == nil || f.Pkg().Path() != astPkgPath {
+				return false
+			}
+			if _, isPtr := f.Type().(*types.Pointer); !isPtr {
+				return false
+			}
+			// the kind members of ast.Type are the kind analysis' business
+			if namedOf(info.TypeOf(sel.X)) == ka.typeT && kindOfMember[sel.Sel.Name] != "" {
+				return false
+			}
+			return true
+		}
+		var sites []struct {
+			node ast.Node
+			base ast.Expr
+		}
+		ast.Inspect(fd.Body, func(n ast.Node) bool {
+			switch x := n.(type) {
+			case *ast.SelectorExpr:
+				if isIRPointerField(x.X) {
+					// method calls on a nil pointer are legal when the method has a pointer receiver; field selections are not
+					if fieldOf(info, x) != nil {
+						sites = append(sites, struct {
+							node ast.Node
+							base ast.Expr
+						}{x, x.X})
+					} else if fn, ok := info.Uses[x.Sel].(*types.Func); ok {
+						if sig := fn.Type().(*types.Signature); sig.Recv() != nil {
+							if _, ptrRecv := sig.Recv().Type().(*types.Pointer); !ptrRecv {
+								sites = append(sites, struct {
+									node ast.Node
+									base ast.Expr
+								}{x, x.X})
+							}
+						}
+					}
+				}
+			case *ast.StarExpr:
+				if isIRPointerField(x.X) {
+					sites = append(sites, struct {
+						node ast.Node
+						base ast.Expr
+					}{x, x.X})
+				}
+			}
+			return true
+		})
+		for _, s := range sites {
+			total++
+			g := ka.guardedLocally(info, fd, parents, s.node, s.base, nil, "nonnil")
+			// assigned just before in the same function: `opt.Default = &ast.OptionDefault{}`
+			if g == "" {
+				ast.Inspect(fd.Body, func(n ast.Node) bool {
+					as, ok := n.(*ast.AssignStmt)
+					if !ok || as.Pos() > s.node.Pos() {
+						return true
+					}
+					for i, l := range as.Lhs {
+						if sameAccessPath(info, l, s.base) && i < len(as.Rhs) {
+							if u, ok := ast.Unparen(as.Rhs[i]).(*ast.UnaryExpr); ok && u.Op == token.AND {
+								g = "assigned the address of a value earlier in the function"
+							}
+						}
+					}
+					return true
+				})
+			}
+			cons := fmt.Sprintf("%s %s", ctx.FuncName(obj), exprString(s.base))
+			perFunc[cons]++
+			if perFunc[cons] > 1 {
+				cons = fmt.Sprintf("%s #%d", cons, perFunc[cons])
+			}
+			if g == "" {
+				if why, ok := c04NilTable[cons]; ok {
+					g = "reviewed: " + why
+				}
+			}
+			r.Check(g != "", "flow/nil-guarded-member", cons, s.node.Pos(), g,
+				fmt.Sprintf("%s selects through the pointer member %s without a dominating non-nil test: when it is not set cog dereferences nil", ctx.FuncName(obj), exprString(s.base)))
+		}
+	})
+	r.Count("selections through pointer members of the IR", total)
 }
